@@ -89,7 +89,54 @@ def run_check(prop, tier, replay=None):
 
 
 def run_c11(run, tier, wd, binary, replay):
-    raise vlib.Infra("not built yet")
+    bd = os.path.join(wd, "b")
+    os.makedirs(bd)
+    vlib.stage_specs(bd, ["Scan.tla", "MCScan.tla", "TraceTagScan.tla"])
+    vlib.write_cfg(os.path.join(bd, "s.cfg"), constants=dict(Shapes="{}", OutFile='"shapes.ndjson"', Depth=3), init="MCInit", next_="Next",
+                   invariants=["C11_Flatten", "C11_Exactly", "C11_Frame", "C11_Once"])
+    r = vlib.run_tlc(bd, "MCScan", "s.cfg", workers=8, timeout=3000, jvm=vlib.JVM_BIG)
+    run.add_model_run("Scan: scanFields state machine vs declarative ownership / flattening on every shape of the family", r)
+    if not r.ok:
+        raise vlib.Infra("Scan.tla: %s violated: the specification needs fixing" % r.violated)
+    shapes = [json.loads(x) for x in open(os.path.join(bd, "shapes.ndjson"))]
+    rng = random.Random(run.seed * 17 + 11)
+    for _ in range(300 if tier == "quick" else 6000):          # deeper / wider random shapes
+        shapes.append(dict(shape=rand_shape(rng)))
+    if replay:
+        shapes = [dict(shape=json.load(open(replay))["replay"]["record"]["shape"])]
+    vlib.write_ndjson(os.path.join(bd, "in.ndjson"), shapes)
+    p = vlib.run_harness(binary, ["scan", "-in", "in.ndjson", "-out", "st.ndjson"], cwd=bd)
+    if p.returncode != 0:
+        raise vlib.Infra("scan harness failed: " + p.stderr[-800:])
+    lines = open(os.path.join(bd, "st.ndjson")).readlines()
+    monitor_lines(run, bd, "TraceTagScan", lines, dict(Shapes="{}"),
+                  ["C11_Exactly_Bound", "C11_Frame_Untouched", "C11_Exactly_Custom", "C11_Flatten_Same", "C11_RunOk"],
+                  "real tag scan", lambda rec: "shape with %d root field(s)" % len(rec["shape"]), chunk=4000)
+    for sh in shapes:
+        run.count_case(sh["shape"], any(n["k"] == "struct" for n in sh["shape"]))
+    run.sample(json.loads(lines[len(lines) // 3]))
+    run.cov["rule"] = ("shapes = every field tree of the bounded family (depth <= 3; anonymous / named, tagged / untagged, by-value / pointer "
+                       "struct fields; value, prop, custom, foreign, untagged leaves; a compile-time block with an unexported tagged field; an "
+                       "embed of an unexported type) exported by TLC, plus seeded deeper shapes; non-trivial = has a struct field")
+    run.assumptions += ["reflect.StructOf builds the holder types; unexported fields come from generated compile-time blocks",
+                        "leaves are string fields; wire / func / logger / prefix tags on embedded shapes are exercised by the other checks' holders"]
+
+
+def rand_shape(rng, depth=4):
+    """random field tree with preorder ids (no unexported parts: StructOf cannot build them at arbitrary places)"""
+    counter = [0]
+    def leaf():
+        counter[0] += 1
+        return dict(k="leaf", tag=rng.choice(["none", "value", "prop", "cust", "foreign", "value"]), anon=False, ptr=False, exp=True, id=counter[0], kids=[])
+    def node(d):
+        if d == 0 or rng.random() < 0.45:
+            return leaf()
+        counter[0] += 1
+        me = dict(k="struct", tag=rng.choice(["none", "none", "none", "cust", "foreign"]), anon=rng.random() < 0.7, ptr=rng.random() < 0.15,
+                  exp=True, id=counter[0], kids=[])
+        me["kids"] = [node(d - 1) for _ in range(rng.randint(1, 3))]
+        return me
+    return [node(depth) for _ in range(rng.randint(1, 4))]
 
 
 def run_c17(run, tier, wd, binary, replay):
